@@ -123,6 +123,13 @@ static URI_INLINE UriBool URI_FUNC(EqualsAuthority)(const URI_TYPE(Uri) * first,
 					&second->hostData.ipFuture)) ? URI_TRUE : URI_FALSE;
 	}
 
+	/* A registered name never equals an IP literal, not even the
+	 * IPvFuture literal whose text between the brackets reads the same */
+	if ((second->hostData.ip4 != NULL) || (second->hostData.ip6 != NULL)
+			|| (second->hostData.ipFuture.first != NULL)) {
+		return URI_FALSE;
+	}
+
 	return !URI_FUNC(CompareRange)(&first->hostText, &second->hostText)
 			? URI_TRUE : URI_FALSE;
 }
